@@ -36,6 +36,7 @@ for sid in ids:
     tie = [l for l in out.split("\n") if l.startswith(("[tie]", "[search]", "[lean]", "[gen]"))]
     det["%s/%s" % (prop, tier)] = {"result": kind, "rc": r.returncode, "verdict": v[0] if v else "OK (not detected)", "log": tie[-4:]}
     meta["detected_by"] = det
-    json.dump(meta, open(meta_p, "w"), indent=1)
+    if not os.environ.get("TRY_NOREC"):          # TRY_NOREC=1: robustness runs at other VERIF_SEED values are only printed
+        json.dump(meta, open(meta_p, "w"), indent=1)
     print(sid, prop, tier, "->", kind)
 subprocess.run(["python3", os.path.join(VERIF, "gen", "extract.py")], capture_output=True)
